@@ -63,7 +63,9 @@ TAsm == IsEv("Asm") /\ LET r == Rec[l] IN
                      GhostMemo(Req("Asm", <<>>, 0, 0, FALSE, 0, r.k, r.who),
                                Ans(r.ans, IF AsmDet(r.who) \/ r.ans.e # "" THEN r.ans.dg ELSE -1)))
 
-TNext == TReset \/ TSubmit \/ TProduce \/ TDryRun \/ TEst \/ TAsm
+TTick == IsEv("Tick") /\ Bind(Tick, GhostForget)
+
+TNext == TReset \/ TSubmit \/ TProduce \/ TTick \/ TDryRun \/ TEst \/ TAsm
 TSpec == TInit /\ [][TNext]_tvars
 
 TraceAccepted ==
